@@ -24,16 +24,18 @@ const MinPackages = 35
 
 // Prog is the loaded, type-checked, SSA-built program plus indexes.
 type Prog struct {
-	RepoDir  string
-	Fset     *token.FileSet
-	Pkgs     []*packages.Package // repo packages only (sorted by path)
-	AllPkgs  map[string]*packages.Package
-	SSA      *ssa.Program
-	RepoFns  []*ssa.Function          // every function (incl. anonymous) whose source is in the repo
-	fnByName map[string]*ssa.Function // short qualified name -> function
-	fileOf   map[*ast.File]*packages.Package
-	cg       *CallGraph
-	domCache map[*ssa.Function]*domInfo
+	RepoDir     string
+	Fset        *token.FileSet
+	Pkgs        []*packages.Package // repo packages only (sorted by path)
+	AllPkgs     map[string]*packages.Package
+	SSA         *ssa.Program
+	RepoFns     []*ssa.Function // every function (incl. anonymous) whose source is in the repo
+	TestHelpers []*ssa.Function // functions of non-_test files that import "testing" (test scaffolding, not application code)
+	testFiles   map[string]bool
+	fnByName    map[string]*ssa.Function // short qualified name -> function
+	fileOf      map[*ast.File]*packages.Package
+	cg          *CallGraph
+	domCache    map[*ssa.Function]*domInfo
 }
 
 // short strips the module prefix from a qualified name.
@@ -125,12 +127,39 @@ func Load(dir string, extraEnv []string, buildFlags []string) (*Prog, error) {
 				continue
 			}
 		}
+		if P.inTestSupportFile(fn) {
+			P.TestHelpers = append(P.TestHelpers, fn)
+			continue
+		}
 		P.RepoFns = append(P.RepoFns, fn)
 		P.fnByName[short(fn.String())] = fn
 	}
 	sort.Slice(P.RepoFns, func(i, j int) bool { return P.RepoFns[i].String() < P.RepoFns[j].String() })
 	P.buildFuncAliases()
 	return P, nil
+}
+
+// inTestSupportFile: the function is declared in a file that imports "testing"
+// (x/*/keeper/test_common.go style scaffolding compiled into the package).
+func (P *Prog) inTestSupportFile(fn *ssa.Function) bool {
+	if P.testFiles == nil {
+		P.testFiles = map[string]bool{}
+		for _, p := range P.Pkgs {
+			for _, f := range p.Syntax {
+				for _, im := range f.Imports {
+					if im.Path.Value == `"testing"` {
+						P.testFiles[P.Fset.Position(f.Pos()).Filename] = true
+					}
+				}
+			}
+		}
+	}
+	for f := fn; f != nil; f = f.Parent() {
+		if f.Pos().IsValid() {
+			return P.testFiles[P.Fset.Position(f.Pos()).Filename]
+		}
+	}
+	return false
 }
 
 // Fn resolves a function by its short qualified name, e.g.
